@@ -166,6 +166,9 @@ def Env.kindOf (e : Env) (n : String) : Option Kind :=
 
 def floatJ (repr : String) : J := .obj [("$float", .str repr)]
 
+/-- `coerce_float` rejects NaN and ±Infinity (fix X2); `repr` is Python's `repr(float(text))` -/
+def finiteRepr (repr : String) : Bool := !(repr == "inf" || repr == "-inf" || repr == "nan")
+
 def MAX_INT : Int := 2147483647
 def MIN_INT : Int := -2147483648
 
@@ -175,18 +178,22 @@ def scalarLiteral (tname : String) (custom : Bool) : Lit → Option J
     if custom then some (.str v)
     else if tname == "Int" then
       match v.toInt? with
-      | some n => if MIN_INT < n && n < MAX_INT then some (.num n) else none
+      | some n => if MIN_INT ≤ n && n ≤ MAX_INT then some (.num n) else none   -- closed range (fix A1)
       | none => none
-    else if tname == "Float" then some (floatJ f)
+    else if tname == "Float" then (if finiteRepr f then some (floatJ f) else none)
     else if tname == "ID" then some (.str v)
     else none
   | .float v f =>
-    if custom then some (.str v) else if tname == "Float" then some (floatJ f) else none
+    if custom then some (.str v) else if tname == "Float" then (if finiteRepr f then some (floatJ f) else none) else none
   | .str s =>
     if custom then some (.str s) else if tname == "String" || tname == "ID" then some (.str s) else none
   | .bool b =>
     if custom then some (.bool b) else if tname == "Boolean" then some (.bool b) else none
   | _ => none
+
+/-- `_extract_input_object` (fix A5): a field of the literal that the input type does not define is an
+    InvalidValue -/
+def allDefined (given : List (String × Lit)) (names : List String) : Bool := given.all fun g => names.contains g.1
 
 /-- last occurrence wins: `{f.name.value: f for f in node.fields}` -/
 def lookupLast (fs : List (String × Lit)) (n : String) : Option Lit :=
@@ -228,7 +235,9 @@ def valueFromAst (env : Env) : Nat → Lit → Ty → R (Option J)
               | _ => pure none
             | .input =>
               match lit with
-              | .obj fs => coerceLiveFields env fuel fs t.inputFields
+              | .obj fs => do
+                let r ← coerceLiveFields env fuel fs t.inputFields
+                pure (if allDefined fs (t.inputFields.map (·.name)) then r else none)
               | _ => pure none
             | _ => pure none
           | none =>
@@ -243,7 +252,9 @@ def valueFromAst (env : Env) : Nat → Lit → Ty → R (Option J)
                 | _ => pure none
               | .input =>
                 match lit with
-                | .obj fs => coerceDefFields env fuel fs d.inputFields
+                | .obj fs => do
+                  let r ← coerceDefFields env fuel fs d.inputFields
+                  pure (if allDefined fs (d.inputFields.map (·.name)) then r else none)
                 | _ => pure none
               | _ => pure none
 
